@@ -152,7 +152,7 @@ UNITS.append(class_type_unit("C06"))
 VERIFIED_CALLEES = ("check_required",)
 LEVEL = "other"
 TECHNIQUE = "contract-based deductive verification of validate's nested check functions (VCs from the real AST, recursion by contract) + bounded run-time contract checking: one foreign key inserted / one required key removed at every tree position"
-LEVEL_TEXT = "Proved on validate's nested functions: check_required returns normally only if every required key is present and not None and recurses into the selected subcommand's own section with the prefixed key; check_values returns normally only if every key has an action, is a branch of declared keys or lies under a parent action checked in the same pass, else NSKeyError naming the key, and type-checks every key with an action; leftover argv is never accepted (C04 unit). Bounded only: one foreign key inserted / one required key removed at every position of 9 parser shapes x 12 channels."
+LEVEL_TEXT = "Verified: validate's check_required returns normally only if every required key is present and not None and recurses into the selected subcommand's own section; check_values returns normally only if every key has an action, is a branch of declared keys or lies under a parent action checked in the same pass, else NSKeyError naming the key, and checks every key by (its own action, its value, the key, the whole configuration); the classifiers it relies on: _is_branch_key (a string prefix of a declared name is not a branch - symbolic strings), _find_action_and_subcommand, _find_parent_action_and_subcommand; _apply_actions and _check_value_key; leftover argv is never accepted (parse_args unit), _positional_optionals drops no leftover token, parse_known_args refuses foreign callers; class parsers validate init_args also when only class_path is given (adapt_class_type). Bounded only: one foreign key inserted / one required key removed at every position of 9 parser shapes x 12 channels."
 LEVEL_NOTE = "under construction"
 EXPLANATION = "under construction"
 ASSUMPTIONS = []
